@@ -18,6 +18,9 @@ pub enum Outcome<T> {
     Deadlock(String),
     /// the hard decision bound was exceeded
     StepBound,
+    /// one transaction attempt exceeded the instrumented STM's bound on transactional accesses
+    /// (a loop inside an attempt that performs no synchronisation: no schedule can end it)
+    Livelock,
 }
 
 pub struct ExecResult<T> {
@@ -96,7 +99,9 @@ where
                 "non-string panic payload".to_string()
             };
             let full = LAST_PANIC.with(|p| p.borrow_mut().take()).unwrap_or_else(|| short.clone());
-            if short.starts_with("deadlock!") {
+            if short.starts_with("STM-OP-BOUND") {
+                Outcome::Livelock
+            } else if short.starts_with("deadlock!") {
                 Outcome::Deadlock(short)
             } else if short.starts_with("exceeded max_steps") {
                 Outcome::StepBound
